@@ -50,6 +50,18 @@ func lockable(o *engine.Obligation) bool {
 	return !strings.HasPrefix(o.Kind, "safe:") && !o.Cover
 }
 
+// lockName is the name under which an obligation is recorded in obligations.lock: the per-site suffix ~N (second,
+// third ... back edge or call site of the same clause) is dropped, so that adding or removing a `continue` or a call
+// does not by itself make a locked name disappear.
+func lockName(name string) string {
+	if i := strings.LastIndex(name, "~"); i > 0 {
+		if _, err := strconv.Atoi(name[i+1:]); err == nil {
+			return name[:i]
+		}
+	}
+	return name
+}
+
 type checkRun struct {
 	prop     string
 	tier     string
@@ -100,6 +112,9 @@ func cmdCheck(args []string) int {
 	defer os.RemoveAll(scratch)
 
 	w, err := engine.Load(repoDir(), verifDir()+"/contracts/assumed")
+	if err == nil {
+		w.LoadLocalsLock(filepath.Join(verifDir(), "locals.lock"))
+	}
 	if err != nil {
 		fmt.Fprintln(os.Stderr, "govc: load:", err)
 		return 2
@@ -199,6 +214,9 @@ func cmdCheck(args []string) int {
 		if len(again) == 0 || (attempt == 2 && *tier != "thorough" && len(again) > 3) {
 			break
 		}
+		if attempt == 2 && os.Getenv("GOVC_CORPUS") != "" {
+			break // corpus runs (selftest / seeded / must-fail) on changed trees: the last, 9x rung only costs time there
+		}
 		if len(again) > 8 && *tier != "thorough" {
 			break // many undecided obligations are a broken proof, not solver jitter: do not spend minutes re-trying
 		}
@@ -239,6 +257,7 @@ func cmdCheck(args []string) int {
 	for _, r := range run.results {
 		o := r.Obl
 		present[o.Name] = true
+		present[lockName(o.Name)] = true
 		for _, t := range r.Times {
 			solverTime += t
 		}
@@ -453,13 +472,17 @@ func writeMissing(dir, prop, name string) string {
 func cmdLock() int {
 	w := load()
 	out := map[string][]string{}
+	seenLock := map[string]bool{}
 	add := func(u *engine.Unit) {
 		for _, o := range u.VC.Obls {
 			if !lockable(o) {
 				continue
 			}
 			for _, p := range o.Props {
-				out[p] = append(out[p], o.Name)
+				if ln := lockName(o.Name); !seenLock[p+"|"+ln] {
+					seenLock[p+"|"+ln] = true
+					out[p] = append(out[p], ln)
+				}
 			}
 		}
 	}
@@ -477,6 +500,10 @@ func cmdLock() int {
 	for p := range out {
 		sort.Strings(out[p])
 	}
+	// the variables each function declares, so that later pure renames can be recognised (World.LoadLocalsLock)
+	w.Renames = nil
+	ldata, _ := json.MarshalIndent(w.LocalsOf(), "", " ")
+	_ = os.WriteFile(filepath.Join(verifDir(), "locals.lock"), ldata, 0644)
 	data, _ := json.MarshalIndent(out, "", " ")
 	if err := os.WriteFile(filepath.Join(verifDir(), "obligations.lock"), data, 0644); err != nil {
 		fmt.Fprintln(os.Stderr, err)
@@ -603,7 +630,7 @@ func cmdSelftest(args []string) int {
 				return
 			}
 			c := exec.Command(self, "check", meta.Property, "--tier", "quick")
-			c.Env = append(os.Environ(), "GOVC_REPO="+repo, "GOVC_EVIDENCE_DIR="+filepath.Join(scratch, "ev"), "GOVC_VERIF="+vsnap, "GOVC_REPLAY_DIR="+filepath.Join(scratch, "replays"))
+			c.Env = append(os.Environ(), "GOVC_CORPUS=1", "GOVC_REPO="+repo, "GOVC_EVIDENCE_DIR="+filepath.Join(scratch, "ev"), "GOVC_VERIF="+vsnap, "GOVC_REPLAY_DIR="+filepath.Join(scratch, "replays"))
 			out, err := c.CombinedOutput()
 			code := 0
 			if ee, ok := err.(*exec.ExitError); ok {
@@ -698,7 +725,7 @@ func mustFailCorpus(prop string) (int, int, []string) {
 				cmd.Dir = repo
 				if _, err := cmd.CombinedOutput(); err == nil {
 					c := exec.Command(self, "check", prop, "--tier", "quick")
-					c.Env = append(os.Environ(), "GOVC_REPO="+repo, "GOVC_EVIDENCE_DIR="+filepath.Join(scratch, "ev"), "GOVC_REPLAY_DIR="+filepath.Join(scratch, "replays"))
+					c.Env = append(os.Environ(), "GOVC_CORPUS=1", "GOVC_REPO="+repo, "GOVC_EVIDENCE_DIR="+filepath.Join(scratch, "ev"), "GOVC_REPLAY_DIR="+filepath.Join(scratch, "replays"))
 					out, err := c.CombinedOutput()
 					if ee, isExit := err.(*exec.ExitError); isExit && ee.ExitCode() == 1 && strings.Contains(string(out), "VIOLATION property="+prop) {
 						ok = true
@@ -795,7 +822,7 @@ func cmdSeeded(args []string) int {
 			}
 			for _, p := range plist {
 				c := exec.Command(self, "check", p, "--tier", "quick")
-				c.Env = append(os.Environ(), "GOVC_REPO="+repo, "GOVC_EVIDENCE_DIR="+filepath.Join(scratch, "ev"), "GOVC_VERIF="+vsnap, "GOVC_REPLAY_DIR="+filepath.Join(scratch, "replays"))
+				c.Env = append(os.Environ(), "GOVC_CORPUS=1", "GOVC_REPO="+repo, "GOVC_EVIDENCE_DIR="+filepath.Join(scratch, "ev"), "GOVC_VERIF="+vsnap, "GOVC_REPLAY_DIR="+filepath.Join(scratch, "replays"))
 				out, err := c.CombinedOutput()
 				code := 0
 				if ee, ok := err.(*exec.ExitError); ok {
